@@ -9,6 +9,13 @@
      pyatv/support/shield.py          guard (BlockedStateError when blocking)
      pyatv/protocols/dmap/__init__.py _close: reports connection_closed() from inside close
                                       (re-enters FacadeAppleTV.close through the proxy)
+     pyatv/core/__init__.py           AbstractPushUpdater.post_update and the protocols' error report
+     pyatv/protocols/mrp/__init__.py  (MrpPushUpdater.state_updated): loop.call_soon(self.listener.
+                                      playstatus_update | playstatus_error, self, ...) - the listener
+                                      method is resolved when scheduling (null function without listener)
+     pyatv/core/facade.py             FacadePushUpdater.playstatus_update / playstatus_error: forwarded
+                                      iff _forward_updates and updater == main_instance, tested when
+                                      the call-back runs
 
    A configuration is the list of connected protocols (does its close() report
    connection_closed?  how many tasks does it return?) and the state of the user's
@@ -21,28 +28,39 @@ Import ListNotations.
 
 Inductive lkind := LNone | LLive | LDead.          (* no listener set | alive | weakref expired *)
 Record pcfg := { dmaplike : bool; ntasks : nat }.
-Record cfg := { protos : list pcfg; lst : lkind }.
+(* mainp: index of the protocol whose push updater is the main instance (highest priority) *)
+Record cfg := { protos : list pcfg; lst : lkind; mainp : nat }.
+
+Inductive qitem := QUpd (err : bool) (i : nat) | QNoop.   (* scheduled call-backs *)
 
 Inductive task := TSess | TProto (i k : nat).
 Inductive obs :=
   | UpdStart (i : nat) | UpdStop (i : nat)        (* protocol i's push updater .start() / .stop() *)
   | SessClose                                     (* session_manager.close() *)
   | ProtoClose (i : nat)                          (* SetupData.close() of protocol i *)
-  | Notify (n : notif).                           (* call received by the user's DeviceListener *)
+  | Notify (n : notif)                            (* call received by the user's DeviceListener *)
+  | PushGot (err : bool) (i : nat).               (* the user's PushListener got an update (false) or an
+                                                     error (true) of protocol i's updater *)
 Inductive res := RNone | ROk | RBlocked | RTasks (l : list task) | RFuel.
 
-Record st := { blocked : bool; pending : option (list task); calls : nat; fwd : bool }.
+Record st := { blocked : bool; pending : option (list task); calls : nat;
+               fwd : bool;                 (* FacadePushUpdater._forward_updates *)
+               lis : bool;                 (* do the protocols' updaters have the facade as listener? *)
+               queue : list qitem }.       (* loop.call_soon FIFO *)
 
-Definition init : st := {| blocked := false; pending := None; calls := 0; fwd := false |}.
+Definition init : st :=
+  {| blocked := false; pending := None; calls := 0; fwd := false; lis := false; queue := [] |}.
 
 Definition set_blocked (s : st) (b : bool) : st :=
-  {| blocked := b; pending := pending s; calls := calls s; fwd := fwd s |}.
+  {| blocked := b; pending := pending s; calls := calls s; fwd := fwd s; lis := lis s; queue := queue s |}.
 Definition set_pending (s : st) (p : option (list task)) : st :=
-  {| blocked := blocked s; pending := p; calls := calls s; fwd := fwd s |}.
+  {| blocked := blocked s; pending := p; calls := calls s; fwd := fwd s; lis := lis s; queue := queue s |}.
 Definition set_calls (s : st) (n : nat) : st :=
-  {| blocked := blocked s; pending := pending s; calls := n; fwd := fwd s |}.
-Definition set_fwd (s : st) (b : bool) : st :=
-  {| blocked := blocked s; pending := pending s; calls := calls s; fwd := b |}.
+  {| blocked := blocked s; pending := pending s; calls := n; fwd := fwd s; lis := lis s; queue := queue s |}.
+Definition set_push (s : st) (b : bool) : st :=      (* start: listener set + forwarding on; stop: both off *)
+  {| blocked := blocked s; pending := pending s; calls := calls s; fwd := b; lis := b; queue := queue s |}.
+Definition set_queue (s : st) (q : list qitem) : st :=
+  {| blocked := blocked s; pending := pending s; calls := calls s; fwd := fwd s; lis := lis s; queue := q |}.
 
 Definition max_calls : nat := 1.                    (* FacadeAppleTV: super().__init__(max_calls=1) *)
 
@@ -92,7 +110,7 @@ Fixpoint close_f (fuel : nat) (c : cfg) (s : st) : st * list obs * res :=
       if blocked s then (s, [], RBlocked)              (* self.push_updater is guarded *)
       else
         let n := length (protos c) in
-        let s0 := set_fwd s false in                   (* FacadePushUpdater.stop() *)
+        let s0 := set_push s false in                  (* FacadePushUpdater.stop() *)
         let s1 := set_pending s0 (Some [TSess]) in     (* set(); add(create_task(session.close())) *)
         let closef := fun x => let '(a, b, _) := close_f f c x in (a, b) in
         let '(s2, o2) := close_protos closef (lst c) 0 (protos c) s1 in
@@ -107,6 +125,16 @@ Definition close (c : cfg) (s : st) : st * list obs * res := close_f 2 c s.
 Definition report (c : cfg) (s : st) (k : notif) : st * list obs :=
   report_with (fun x => let '(a, b, _) := close c x in (a, b)) (lst c) s k.
 
+(* one scheduled call-back runs: FacadePushUpdater.playstatus_update / playstatus_error *)
+Definition deliver_q (c : cfg) (s : st) (q : qitem) : list obs :=
+  match q with
+  | QUpd e i => if fwd s && (i =? mainp c) then [PushGot e i] else []
+  | QNoop => []
+  end.
+
+Definition schedule (s : st) (e : bool) (i : nat) : st :=
+  set_queue s (queue s ++ [if lis s then QUpd e i else QNoop]).
+
 Definition step (c : cfg) (s : st) (e : ev) : st * list obs * res :=
   match e with
   | Lost i x => let '(s', o) := report c s (NLost i x) in (s', o, RNone)
@@ -120,10 +148,13 @@ Definition step (c : cfg) (s : st) (e : ev) : st * list obs * res :=
   | PushStart =>                                   (* FacadePushUpdater.start / stop have an effect of
                                                       their own on the updaters: dedicated events *)
       if blocked s then (s, [], RBlocked)
-      else (set_fwd s true, map UpdStart (seq 0 (length (protos c))), ROk)
+      else (set_push s true, map UpdStart (seq 0 (length (protos c))), ROk)
   | PushStop =>
       if blocked s then (s, [], RBlocked)
-      else (set_fwd s false, map UpdStop (seq 0 (length (protos c))), ROk)
+      else (set_push s false, map UpdStop (seq 0 (length (protos c))), ROk)
+  | PostPlay i => (schedule s false i, [], RNone)
+  | PostErr i => (schedule s true i, [], RNone)
+  | RunLoop => (set_queue s [], flat_map (deliver_q c s) (queue s), RNone)
   end.
 
 (* per-event outputs *)
@@ -160,6 +191,7 @@ Definition obs_eqb (a b : obs) : bool :=
   | UpdStart i, UpdStart j | UpdStop i, UpdStop j | ProtoClose i, ProtoClose j => i =? j
   | SessClose, SessClose => true
   | Notify n, Notify m => notif_eqb n m
+  | PushGot e i, PushGot f j => Bool.eqb e f && (i =? j)
   | _, _ => false
   end.
 Definition res_eqb (a b : res) : bool :=
